@@ -407,5 +407,5 @@ Proof.
     - unfold good, init_pstate. simpl. split; [exact T1 | exact T2].
     - unfold B, mu, hasc, init_pstate, reader_fuel. simpl. lia.
     - unfold B, mu, hasc, init_pstate, reader_fuel. simpl. lia. }
-  destruct (tree_iter _ _ _ _ _ _ _ _ _) as [r| |]; simpl in *; auto.
+  match goal with |- match bind ?r _ with _ => _ end => destruct r as [x| |] end; simpl in *; auto.
 Qed.
